@@ -248,7 +248,8 @@ func (l *memoryBlockList) Allocate(size int, alignment uint, createInfo *Allocat
 			for allocIndex > 0 {
 				allocIndex--
 
-				freeErr := l.Free(&allocations[allocIndex])
+				// Only the blocks this request created are given back (below), the others stay as they were
+				freeErr := l.free(&allocations[allocIndex], true)
 				if freeErr != nil {
 					panic(fmt.Sprintf("unexpected error when freeing an allocation that was created as part of a failed allocation: %+v", err))
 				}
@@ -501,8 +502,14 @@ func (l *memoryBlockList) allocPage(size int, alignment uint, createInfo *Alloca
 }
 
 func (l *memoryBlockList) Free(alloc *Allocation) error {
+	return l.free(alloc, false)
+}
+
+// free releases a block allocation. With keepBlocks the block list itself is left alone: no block
+// is released, whatever the retention policy would say.
+func (l *memoryBlockList) free(alloc *Allocation, keepBlocks bool) error {
 	heapIndex := l.deviceMemory.MemoryTypeIndexToHeapIndex(l.memoryTypeIndex)
-	blockToDelete, err := l.freeWithLock(alloc, heapIndex)
+	blockToDelete, err := l.freeWithLock(alloc, heapIndex, keepBlocks)
 	if err != nil {
 		return err
 	}
@@ -520,7 +527,7 @@ func (l *memoryBlockList) Free(alloc *Allocation) error {
 	return nil
 }
 
-func (l *memoryBlockList) freeWithLock(alloc *Allocation, heapIndex int) (blockToDelete *deviceMemoryBlock, err error) {
+func (l *memoryBlockList) freeWithLock(alloc *Allocation, heapIndex int, keepBlocks bool) (blockToDelete *deviceMemoryBlock, err error) {
 	l.mutex.Lock()
 	defer l.mutex.Unlock()
 
@@ -555,7 +562,7 @@ func (l *memoryBlockList) freeWithLock(alloc *Allocation, heapIndex int) (blockT
 
 	l.logger.LogAttrs(context.Background(), slog.LevelDebug, "    Freed from block", slog.Int("MemoryTypeIndex", l.memoryTypeIndex))
 
-	canDeleteBlock := len(l.blocks) > l.minBlockCount
+	canDeleteBlock := !keepBlocks && len(l.blocks) > l.minBlockCount
 
 	// The block is empty & we can delete it
 	if block.metadata.IsEmpty() && (hasEmptyBlockBeforeFree || budgetExceeded) && canDeleteBlock {
